@@ -123,6 +123,8 @@ impl CertReloader {
         let new_config =
             create_server_config_from_files(&self.config.cert_path, &self.config.key_path)?;
         let new_acceptor = Arc::new(TlsAcceptor::from(new_config));
+        #[cfg(feature = "verif")]
+        crate::verif::sync_point("reload:after_config");
 
         // Analyze new certificate
         let new_cert_info = CertificateInfo::from_pem_file(&self.config.cert_path)?;
